@@ -457,6 +457,13 @@ def main():
             probs = [p for p in probs if not any(("." + b + ".") in p for b in broken)]
             proof_problems += probs
             if tier == "thorough":
+                with open(os.path.join(LEAN, ".lake", "verif.lock"), "w") as lk:
+                    fcntl.flock(lk, fcntl.LOCK_EX)
+                    kat = sh(["lake", "build", "PyemvKat"], cwd=LEAN, timeout=3000)
+                ctx.extra["known_answers"] = {"target": "PyemvKat (13 documented / published vectors evaluated in the kernel) + PyemvProps.KnownAnswers (16, default build)",
+                                              "exit": kat.returncode}
+                if kat.returncode != 0:
+                    proof_problems.append("known answers (PyemvKat) no longer evaluate to the documented values: " + kat.stdout.strip()[-400:])
                 mods = sorted({"PyemvProps." + pid})
                 r = sh(["lake", "env", "leanchecker"] + mods, cwd=LEAN, timeout=3000)
                 ctx.extra["leanchecker"] = {"modules": mods, "exit": r.returncode, "tail": r.stdout.strip()[-200:]}
